@@ -123,6 +123,8 @@ def save_performance_midi(
     elif isinstance(performance_data, PerformedPart):
         performed_parts = [performance_data]
     elif isinstance(performance_data, Iterable):
+        # an iterator or a generator can be run through only once
+        performance_data = list(performance_data)
         if not all(isinstance(pp, PerformedPart) for pp in performance_data):
             raise ValueError(
                 "`performance_data` should be a `Performance`, a `PerformedPart`,"
